@@ -70,6 +70,7 @@ type fsm13 struct {
 	currentFlight      dtlsflight13.Flight
 	flights            []*dtlsflight.Packet
 	retransmit         bool
+	peerRepeatedHello  bool // the received state in hand repeats the peer's ClientHello
 	retransmitInterval time.Duration
 	flightACK          reliableFlight
 	handshakeContext
@@ -384,6 +385,7 @@ func (s *fsm13) handleReceivedFlight( //nolint:cyclop
 ) (receivedFlightTransition, error) {
 	// Keep the reader paused while this receive state is parsed.
 	s.received.retain(received)
+	s.peerRepeatedHello = received.HasHandshake && received.RepeatsHello
 	if !received.IsRetransmit {
 		s.retransmitInterval = s.cfg.InitialRetransmitInterval
 	}
@@ -495,8 +497,9 @@ func (s *fsm13) transitionAfterACK(result ACKResult, peerRetransmit bool) receiv
 		}
 		// A flight the timer never repeats (the cookie request) is still sent
 		// again when the peer repeats the ClientHello it answers: the request
-		// was lost. An ACK alone never earns another copy.
-		if peerRetransmit && len(s.flights) != 0 {
+		// was lost. An ACK alone, or an old record of another type, never
+		// earns another copy.
+		if peerRetransmit && s.peerRepeatedHello && len(s.flights) != 0 {
 			return receivedFlightTransition{state: StateSending}
 		}
 
